@@ -398,6 +398,57 @@ func surviveChild(a []string) string {
 		if c, ok := rt.(interface{ CloseIdleConnections() }); ok {
 			c.CloseIdleConnections()
 		}
+	case "h2parallel":
+		// ONE HTTP/2 connection: many uploads in small DATA frames while the same client keeps opening and finishing other
+		// streams (ordinary multiplexed traffic): the handlers' goroutines, the transport's body readers and the serve loop
+		// all touch the connection's state
+		t := &xhttp2.Transport{TLSClientConfig: &tls.Config{InsecureSkipVerify: true, NextProtos: []string{"h2"}},
+			DialTLSContext: func(ctx context.Context, network, addr string, cfg *tls.Config) (net.Conn, error) {
+				return tls.DialWithDialer(&net.Dialer{Timeout: 3 * time.Second}, "tcp", env.addr, cfg)
+			}}
+		stop := time.Now().Add(1500 * time.Millisecond)
+		var wg sync.WaitGroup
+		for g := 0; g < 24; g++ {
+			wg.Add(2)
+			go func() {
+				defer wg.Done()
+				for time.Now().Before(stop) {
+					pr, pw := io.Pipe()
+					go func() {
+						for k := 0; k < 64; k++ {
+							if _, err := pw.Write(make([]byte, 700)); err != nil {
+								break
+							}
+						}
+						pw.Close()
+					}()
+					rq, _ := http.NewRequest("POST", "https://example.test/up", pr)
+					rq.Header.Set("X-Verif-Discard", "1")
+					if resp, err := t.RoundTrip(rq); err == nil {
+						io.Copy(io.Discard, resp.Body)
+						resp.Body.Close()
+					} else {
+						pr.Close()
+						time.Sleep(20 * time.Millisecond)
+					}
+				}
+			}()
+			go func() {
+				defer wg.Done()
+				for time.Now().Before(stop) {
+					rq, _ := http.NewRequest("GET", "https://example.test/tiny", nil)
+					if resp, err := t.RoundTrip(rq); err == nil {
+						io.Copy(io.Discard, resp.Body)
+						resp.Body.Close()
+					} else {
+						time.Sleep(20 * time.Millisecond)
+					}
+				}
+			}()
+		}
+		wg.Wait()
+		t.CloseIdleConnections()
+		first = "multiplexed"
 	case "rstinflight":
 		// connection A asks for a large response, stops reading (a DATA frame write of the proxy blocks in flight), resets the
 		// stream and then drops the connection. Requests on OTHER connections must be served completely afterwards.
@@ -541,6 +592,16 @@ func init() {
 				c.tag("kind:upload")
 				c.op(fmt.Sprintf("survive kind=upload proto=%s recver=%s mib=160", proto, ver))
 			}
+		}
+		// a silent client: nothing at all, or a fragment of a record header, until the handshake timeout cuts it
+		for _, hexs := range []string{"", "16", "1603", "160301", "16030100"} {
+			c.tag("kind:silent-until-handshake-timeout")
+			c.op("survive kind=bytes hex=" + hexs)
+		}
+		// one multiplexed HTTP/2 connection under load from many goroutines
+		for i := 0; i < 2; i++ {
+			c.tag("kind:h2parallel")
+			c.op("survive kind=h2parallel")
 		}
 		// a stream reset while one of its DATA frames is being written, then unrelated connections
 		for _, gmp := range []string{"1", "1", "4"} {
